@@ -848,6 +848,10 @@ fn evaluate(env: &Env, st: &St) -> Result<EvalOk, EvalErr> {
             let (true_comp, local) = env.reading(&pred);
             if true_comp != *comp {
                 misfiled.insert((format!("{}({},{})", pred, env.name(t.subject), env.name(t.object)), format!("filed under {} instead of {}", comp, true_comp)));
+                // shown with its full predicate: (wrong component, local) could coincide with a
+                // rightly filed fact, and which of the two a map keeps would depend on hash order
+                got.insert((comp.clone(), env.name(t.subject), format!("<{}>", pred), env.name(t.object)), *e);
+                continue;
             }
             got.insert((comp.clone(), env.name(t.subject), local, env.name(t.object)), *e);
         }
